@@ -64,6 +64,8 @@ Definition op_within (F P Q : name -> Prop) (o : op) : Prop :=
   match o with
   | Print (DRedir RPipe c) _ => P c
   | Print (DRedir _ n) _ => F n
+  | PrintRec (DRedir RPipe c) _ => P c
+  | PrintRec (DRedir _ n) _ => F n
   | System c => Q c
   | GetlineCmd c => Q c
   | _ => True
